@@ -19,10 +19,23 @@ Type substitutions / stubs (all listed in info['trusted_base']):
      sliced functions goes through `.tag()` / `discriminant()`.
   T3 ExprKind without AnonymousFunction/IfElse/Match/Block (never built by the sliced code).
   T4 statics::Error -> two-variant stub (UnexpectedToken, ProblematicToken).
+  T5 Parser.tokens: Vec<Token> -> TokVec (same `get`; records the highest index read).
   S1 Parser::parse_expr_term -> stub: Ident | IntLit | FloatLit | `-` IntLit | `-` FloatLit
      leaf (mirrors those arms of the real function; numeric conversion, lambdas, parentheses,
      blocks, if/match dropped).
   S2 Parser::parse_func_call_args -> stub accepting exactly `(` `)`.
+
+Back ends:
+  * Kani, loop-free, full domain (complete): the three precedence tables against the markdown
+    table of operators.md (parsed on every run; order and ties between ANY two operators), and
+    the three token -> operator maps over every TokenKind.
+  * Exhaustive native execution (bounded): the real Pratt loop `parse_expr_bp` +
+    `handle_postfix_expr` on EVERY token string of length <= 7 (quick) / 8 (thorough) over a
+    27-tag alphabet, against a shunting-yard reference that knows only the documented levels.
+    A string is not extended when neither parser read past its end (instrumented token vector),
+    so all strings of the domain are covered by 1.4e7 (quick) parser runs.  Kani was tried
+    first: the recursive loop over symbolic tokens does not terminate in CBMC within 7 min
+    at length 5.
 """
 import os
 import re
